@@ -127,6 +127,21 @@ Definition refuses (acts : list action) : bool :=
                     | _ => false
                     end) acts.
 
+(* apply_default_as_fill_with (revision.rs, added by the fix for D6): a column that becomes NOT NULL
+   and has a default in the baseline gets that default (as SQL text) as its fill value *)
+Definition default_as_fill (baseline : schema) (a : action) : action :=
+  match a with
+  | ModifyColumnNullable table column false None =>
+      match lookup_col baseline table column with
+      | Some c => match c_default c with
+                  | Some d => ModifyColumnNullable table column false (Some (default_to_sql d))
+                  | None => a
+                  end
+      | None => a
+      end
+  | _ => a
+  end.
+
 Inductive fill_outcome := Filled (acts : list action) | Refused.
 
 Definition revision_fill (p : plan) (baseline : schema) : fill_outcome :=
@@ -135,4 +150,4 @@ Definition revision_fill (p : plan) (baseline : schema) : fill_outcome :=
     let missing := collect_fills (p_actions p) baseline in
     let a1 := match missing with [] => p_actions p | _ => map (apply_fill missing) (p_actions p) end in
     let me := find_missing_enum_fill_with (mkPlan "" None None 0 a1) baseline in
-    Filled (apply_enum_fills 0 a1 me).
+    Filled (map (default_as_fill baseline) (apply_enum_fills 0 a1 me)).
